@@ -1803,6 +1803,13 @@ def _stateprep_workflow(
         SetModelPass(model),
         SetTargetPass(state),
         synthesis,
+        build_single_qudit_retarget_workflow(
+            optimization_level,
+            synthesis_epsilon,
+            max_synthesis_size,
+            error_threshold,
+            error_sim_size,
+        ),
         scan if optimization_level >= 2 else NOOPPass(),
     ]
 
@@ -1901,6 +1908,13 @@ def _statemap_workflow(
         SetModelPass(model),
         SetTargetPass(state),
         synthesis,
+        build_single_qudit_retarget_workflow(
+            optimization_level,
+            synthesis_epsilon,
+            max_synthesis_size,
+            error_threshold,
+            error_sim_size,
+        ),
         scan if optimization_level >= 2 else NOOPPass(),
     ]
 
